@@ -94,6 +94,8 @@ def drive_hop(kind, c, rng):
     F = np.zeros((nst, ndim))
     elec = StubElec(H, dc, F)
     model = StubModel(c["mass"], nst, [elec])
+    if all(float(mi).is_integer() for mi in c["mass"]) and rng.random() < 0.5:
+        model.mass = np.array(c["mass"], dtype=np.int64)        # an integer-typed mass vector holding the same numbers
     x0 = [rng.uniform(-1, 1) for _ in range(ndim)]
     p0 = (np.array(c["mass"]) * np.array(c["v"])).tolist()
     tr = make_traj(kind, model, x0, p0, c["state"], elec, rng)
